@@ -37,6 +37,19 @@ class Lab:
                 self.names = sorted(set(self.names[:2]) | set(rng.sample(sorted(set(lits)), min(2, len(set(lits))))))
         self.ents = ents if ents is not None else universe.gen_universe(
             rng, self.model, self.vocab, n_leaves=n_leaves or rng.choice([8, 20, 40]), names=self.names)
+        if ents is None and "rig" in self.names and "x_rig" in self.names:
+            # twins differing only by rig / x_rig at one open level (a node only lives in the '_' joined file name)
+            twins = set()
+            for e in self.ents:
+                segs = e.split("/")
+                for i, v in enumerate(segs):
+                    if i >= 2 and v in ("rig", "x_rig"):
+                        t2 = segs[:]
+                        t2[i] = "x_rig" if v == "rig" else "rig"
+                        s2 = "/".join(t2)
+                        if self.model.natural(s2) is not None and self.model.natural(s2) is self.model.natural(e):
+                            twins.add(s2)
+            self.ents = sorted(set(self.ents) | twins)
         self.exists = self.trees.materialise(self.ents)
         self.base_by_config = {c: {e for e in self.ents if self.trees.path_of(c, e)[0] is not None} for c in self.configs}
         self.only_default = []
@@ -69,6 +82,19 @@ class Lab:
 
     def search(self, allow_last=False, from_entity=True, **kw):
         rng = self.rng
+        if "rig" in self.names and "x_rig" in self.names and self.full and rng.random() < 0.12:
+            # values where one is the '_'-tail of the other, in a ',' list or as a partial glob, next to '*' fields:
+            # in a '_' joined file name the glob of one also hits the other
+            cand = [e for e in self.full if any(v in ("rig", "x_rig") for v in e.split("/")[2:])]
+            if cand:
+                segs = rng.choice(cand).split("/")
+                idx = [i for i, v in enumerate(segs) if i >= 2 and v in ("rig", "x_rig")]
+                i = rng.choice(idx)
+                segs[i] = rng.choice(["rig,x_rig", "x_rig,rig", "r*", "*ig", "rig", "x_*"])
+                for j in range(2, len(segs)):
+                    if j != i and rng.random() < 0.6:
+                        segs[j] = "*"
+                return "/".join(segs), {"ops": ["separator_ambiguity"]}
         if from_entity and self.full and rng.random() < 0.85:
             base = rng.choice(self.full)
             t = self.model.natural(base)
